@@ -494,6 +494,9 @@ func (b *bitstream) validateAnnotatedValue(remainingLength uint64) error {
 			counter++
 			remainingLength--
 
+			if val > math.MaxUint64>>7 {
+				return &SyntaxError{"varuint too large", b.pos}
+			}
 			val <<= 7
 			val ^= uint64(c & 0x7F)
 
@@ -888,6 +891,10 @@ func (b *bitstream) readVarUintLen(max uint64) (uint64, uint64, error) {
 			return 0, 0, err
 		}
 
+		if val > math.MaxUint64>>7 {
+			// The next 7 bits would be shifted out of the 64 we have.
+			return 0, 0, &SyntaxError{"varuint too large", b.pos - length - 1}
+		}
 		val <<= 7
 		val ^= uint64(c & 0x7F)
 		length++
@@ -982,6 +989,10 @@ func (b *bitstream) readVarIntLen(max uint64) (int64, int64, uint64, error) {
 			return 0, 0, 0, err
 		}
 
+		if val > math.MaxInt64>>7 {
+			// The next 7 bits would be shifted out of the 63 we have.
+			return 0, 0, 0, &SyntaxError{"varint too large", b.pos - length - 1}
+		}
 		val <<= 7
 		val ^= int64(c & 0x7F)
 		length++
